@@ -9,7 +9,7 @@ import implenv
 from implenv import res as ires
 
 INFO = {
-    'proof_files': ['Proofs/ExtractProofs.v'],
+    'proof_files': ['Proofs/ExtractProofs.v', 'Proofs/DecodeRoundTrip.v'],
     'assumptions': [
         'theorems are about WD.Extract over an abstract closure (signature, types[], argument union slots, sender id); tied to backends/gdb_plugin/extract.py by running the real extract_message / received_message / sent_message on a fake gdb.Value graph with libwayland\'s struct and field names (pointer-offset access via _fast_access included)',
         'GDB\'s Python API and the memory layout are replaced by harness/fakegdb (validated against gdb 13.1 for the wl_fixed_to_double expression); reading a union member other than the one the signature names is garbage in reality and an error in the fake',
